@@ -29,7 +29,8 @@ ExprPositions == {"rhs_constrain", "rhs_assign", "decl_init", "var_init", "var_a
 AnonForms == {"anon1", "anon2", "anon_named", "anon_named_rev", "anon_param", "anon0", "anon_parallel", "anon_mixed_ops", "anon_mixed_ops_rev"}
 TupleExprForms == {"tuple2", "tuple3"}
 TupleStmtForms == {"t_pair", "t_skip_first", "t_skip_last", "t_triple", "t_anon_outputs", "t_anon_outputs_skip", "t_length_mismatch",
-                   "t_nested", "t_var_decl", "t_var_assign", "t_assign_op", "t_reversed", "t_all_skipped", "t_single"}
+                   "t_nested", "t_var_decl", "t_var_assign", "t_assign_op", "t_reversed", "t_all_skipped", "t_single",
+                   "t_discard_anon", "t_discard_anon_paren", "t_discard_anon_assign"}
 
 VARIABLE use
 Init == \/ use \in [kind : {"expr"}, position : ExprPositions, form : AnonForms \cup TupleExprForms, where : {"template", "function"}, loop : BOOLEAN]
